@@ -37,10 +37,10 @@ CHECKS['C19'] = {
     ],
     'technique': 'property-based testing (rapid) with an independent reference forwarding model and a raw-byte disclosure scanner',
     'units': [
-        unit('salt', 'auth_c19', '^TestVerifC19SaltToken$', {'shards': 4, 'checks': 4000}, {'shards': 8, 'checks': 100000, 'timeout': 900}),
-        unit('provider', 'federation_c19', '^TestVerifC19Provider$', {'shards': 4, 'checks': 3000}, {'shards': 8, 'checks': 60000, 'timeout': 900}),
-        unit('conn', 'federation_c19', '^TestVerifC19Conn$', {'shards': 4, 'checks': 1500}, {'shards': 8, 'checks': 30000, 'timeout': 900}),
-        unit('legacy', 'controller_c19', '^TestVerifC19LegacyHandler$', {'shards': 4, 'checks': 1500}, {'shards': 8, 'checks': 30000, 'timeout': 900}),
-        unit('keepstore', 'keepstore_c19', '^TestVerifC19KeepstoreRemoteProxy$', {'shards': 4, 'checks': 1500}, {'shards': 8, 'checks': 30000, 'timeout': 900}),
+        unit('salt', 'auth_c19', '^TestVerifC19SaltToken$', {'shards': 4, 'checks': 4000}, {'shards': 8, 'checks': 300000, 'timeout': 3000}),
+        unit('provider', 'federation_c19', '^TestVerifC19Provider$', {'shards': 4, 'checks': 3000}, {'shards': 8, 'checks': 180000, 'timeout': 3000}),
+        unit('conn', 'federation_c19', '^TestVerifC19Conn$', {'shards': 4, 'checks': 1500}, {'shards': 8, 'checks': 90000, 'timeout': 3000}),
+        unit('legacy', 'controller_c19', '^TestVerifC19LegacyHandler$', {'shards': 4, 'checks': 1500}, {'shards': 8, 'checks': 90000, 'timeout': 3000}),
+        unit('keepstore', 'keepstore_c19', '^TestVerifC19KeepstoreRemoteProxy$', {'shards': 4, 'checks': 1500}, {'shards': 8, 'checks': 90000, 'timeout': 3000}),
     ],
 }
